@@ -35,6 +35,8 @@ def grid_event(alg, N, byname=False):
                 G = np.asarray(g.get_grid_as_array(only_upper=True), dtype=float)
                 full = np.asarray(g.get_grid_as_array(only_upper=False), dtype=float)
             else:
+                if N % 2 == 0:      # the documented upper-half selection of a direction grid asked first (a legal getter, stuttering here)
+                    g.get_grid_as_array(only_upper=True)
                 G = np.asarray(g.get_grid_as_array(), dtype=float)
                 full = G
     except ValueError as ex:
